@@ -32,8 +32,8 @@ type driver struct {
 	mu       sync.Mutex
 	progress map[[2]int]int // (lo,hi) of a failed child -> unit it was running
 	results  []*shardResult
-	crashes []*Violation
-	incon   map[string]int64
+	crashes  []*Violation
+	incon    map[string]int64
 }
 
 func envInt(name string, def int) int {
